@@ -19,9 +19,10 @@ def segmentations(n):
 def stub_type(seg, flip):
     from pygments.token import Text, Whitespace, Comment, Name, Punctuation, Literal
     if seg.isspace():
-        return Whitespace if flip else Text
+        return Whitespace if flip % 2 else Text
     if seg.startswith("#"):
-        return Comment.Single
+        # every member of the Comment family, the bare parent type included (C's "#if 0" regions, JavaScript's "<!--")
+        return [Comment, Comment.Single, Comment.Multiline, Comment.Preproc, Comment.Special, Comment.Hashbang][flip % 6]
     if seg == "(":
         return Punctuation
     if seg.isalpha():
@@ -90,7 +91,7 @@ def enc(toks):
 
 def model_expr(code, raw, fc):
     lts = coq_list(f"mkLtok {off} (kind_of_code {LC.kind_code(tt)}) {LC.pystr(v)}" for off, tt, v in raw)
-    return f"enc_tokens (lex {LC.pystr(code)} {lts} {'true' if fc else 'false'})"
+    return f"enc_tokens (lex_file {LC.pystr(code)} {lts} {'true' if fc else 'false'})"
 
 
 def run(tier, seed, replay=None):
@@ -111,7 +112,7 @@ def run(tier, seed, replay=None):
             code = "".join(chars)
             for segs in segmentations(n):
                 k += 1
-                raw = [(a, stub_type(code[a:b], k % 2), code[a:b]) for a, b in segs]
+                raw = [(a, stub_type(code[a:b], k + a), code[a:b]) for a, b in segs]
                 if k % 5 == 0 and raw:            # zero-length tokens as the JavaScript lexer emits them
                     j = k % len(raw)
                     from pygments.token import Text
@@ -147,6 +148,9 @@ def run(tier, seed, replay=None):
                 _, t = malform.mutate(rng, lang, t)
             texts.append(t)
         texts += malform.SPECIALS
+        texts += ["int a;\n#if 0\nint old(void) { return 0; }\n#endif\nint f(void) { return 1; }\n",
+                  "x = 1;\n<!-- legacy\nfunction f() { return 1; }\n", "#!/bin/sh\n# c\nx = 1\n",
+                  "\ufeff// c\nvoid f() { }\n"]
         for t in texts:
             try:
                 raw = LC.raw_lex(lang, t)
@@ -163,7 +167,7 @@ def run(tier, seed, replay=None):
             if probs:
                 chk.violation({"kind": "real", "language": lang, "text": t}, f"{lang} lexer on {t[:60]!r}: " + "; ".join(probs))
             if len(t) < 400:
-                cases.append((model_expr(t, raw, False), enc(toks_all), {"language": lang, "chars": len(t)}))
+                cases.append((model_expr(t, LC.raw_lex_padded(lang, t), False), enc(toks_all), {"language": lang, "chars": len(t)}))
     chk.samples = [c for _, _, c in cases[2000:2002] + cases[-2:]]
     if model_ok:
         mism, err = eval_cases("C16", IMPORTS, [(m, o) for m, o, _ in cases], shard=400)
